@@ -166,7 +166,6 @@ Proof. exact plain_level. Qed.
 Theorem C08_machine_sem_plain : forall s q, guard s [] q = true -> run_machine s q = Some (sem s [] q).
 Proof. exact machine_sem_plain. Qed.
 
-Definition Known_C08_delete_nosub (nosub : bool) : bool := nosub.
 Definition Known_C08_position (q : query) : bool := negb (all_levels_ok q).
 Definition Known_C08_indirect (s : store) (q : query) : bool := indirect_q q && has_higher_order s.
 Definition Known_C08_optional (s : store) (q : query) : bool := optional_empty s [] q.
@@ -239,10 +238,11 @@ Lemma Known_C08_text_any_witness :
   Known_C08_text_any q = true /\ run_machine W q = Some [[IAnn 4]] /\ sem W [] q = [].
 Proof. vm_compute. repeat split. Qed.
 
-(* SELECT TEXT WHERE [ RESOURCE "r0" OR RESOURCE "r1" ]; *)
+(* SELECT TEXT WHERE [ RESOURCE "r0" OR RESOURCE "r1" ]; - not implemented: ends with an error
+   (an empty result) in either position; the panic it used to be is repaired *)
 Lemma Known_C08_text_union_witness :
   let q := Q 0 TText [CUnion [CRes (RId 0) false; CRes (RId 1) false]] None false None in
-  Known_C08_text_union q = true /\ run_machine W q = None
+  Known_C08_text_union q = true /\ run_machine W q = Some []
   /\ sem W [] q = [[IText 0 0 1]; [IText 0 0 3]; [IText 0 2 5]; [IText 1 4 6]].
 Proof. vm_compute. repeat split. Qed.
 
